@@ -97,6 +97,23 @@ P('C14',
   thorough=dict(cases=150000000, max_size=64, max_seconds=1500, fuzz=dict(seconds=120, jobs=8, max_len=64)),
   )
 
+P('C06',
+  technique='property-based testing: generated mux configurations and frame sequences; oracle = independent EN 300 472 / EN 301 775 / ISO 13818-1 parser, callback-vs-coroutine differential, round trip through the library demultiplexers',
+  rule='case = (PES or TS + PID, data_identifier legal or illegal, min/max PES size incl. unaligned / swapped / out of range, 1-8 frames of '
+       'Teletext B (3 ids) / VPS@16 / WSS@23 / Caption@21 lines with random payloads, service mask, PTS up to 40 bits, unacceptable frames '
+       'interleaved, coroutine output buffers of 1 byte .. 70000 bytes). Non-trivial: an accepted frame of >= 2 x 184 bytes, or one following a '
+       'rejected frame, or drained through a coroutine buffer smaller than one TS packet; distinct = hash of consumed choices.',
+  level_text='Generated-input search with an explicit oracle: every emitted byte is parsed by a harness-side parser written from the standards '
+             '(PES header fields, PTS, size multiple of 184 within the configured bounds, data unit ids / lengths / stuffing, no unit across a '
+             'packet end, TS sync / PID / PUSI / continuity) and must carry exactly the input lines; callback and coroutine outputs must be '
+             'byte-identical; the library demultiplexers must return the same lines, services, payload bits and PTS per frame; rejected frames '
+             'must produce no output and the next frame must be encoded correctly. Sampling only.',
+  level_note='Trusted: models/dvb_model.h as the reading of the standards. Raw (monochrome 4:2:2) lines are not generated yet; sequences containing Teletext lines with undefined line number 0 are checked by the parser only (frame boundaries are then not defined for the demultiplexer comparison).',
+  design_ref='DESIGN.md section 2, C06',
+  quick=dict(cases=120000, max_size=4000, max_seconds=150),
+  thorough=dict(cases=4000000, max_size=4000, max_seconds=1500, fuzz=dict(seconds=240, jobs=8, max_len=4096)),
+  )
+
 NOT_YET = {}
 
 
